@@ -31,22 +31,39 @@ Qed.
 Lemma concat_snoc : forall (bs : list bytes) d, concat (bs ++ [d]) = concat bs ++ d.
 Proof. intros. rewrite concat_app. simpl. rewrite app_nil_r. reflexivity. Qed.
 
-(* ---------- closed forms of the decision and of the header block ---------- *)
-(* headers presented to transform_first_chunk: the handler's own, plus the Content-Length
-   that finish() computes when nothing was flushed and the handler set none *)
-Definition hh1 (prog : list op) (fin : option bytes) : hdrs :=
-  let hh := handler_hdrs prog in
-  if has_flush prog then hh
-  else if hmem K_CL hh then hh
-  else hset K_CL (dec_len (first_chunk prog fin)) hh.
+(* ---------- header-map facts for clear_header ---------- *)
+Lemma hlist_clear : forall k k2 h, hlist k (clear_header k2 h) = if beqb k k2 then [] else hlist k h.
+Proof.
+  intros k k2 h. unfold clear_header. destruct (hmem k2 h) eqn:E.
+  - apply hlist_hdel.
+  - destruct (beqb k k2) eqn:E2; auto. apply beqb_true_iff in E2. subst. apply hmem_false_hlist. exact E.
+Qed.
+Lemma hmem_clear : forall k k2 h, hmem k (clear_header k2 h) = negb (beqb k k2) && hmem k h.
+Proof.
+  intros k k2 h. unfold clear_header. destruct (hmem k2 h) eqn:E.
+  - apply hmem_hdel.
+  - destruct (beqb k k2) eqn:E2; auto. apply beqb_true_iff in E2. subst. exact E.
+Qed.
 
+(* ---------- closed forms of the decision and of the header block ---------- *)
 Definition decision (e : env) (prog : list op) (fin : option bytes) : bool :=
-  ae_gzip e && gzip_decision (vary_step (hh1 prog fin)) (first_chunk prog fin) (negb (has_flush prog)).
+  compress e && ae_gzip e
+  && gzip_decision (vary_step (final_hdrs prog fin)) (status_at prog) (first_chunk prog fin) (negb (has_flush prog)).
 
 (* header block when compressing; [enc] = the encoded body *)
 Definition hdr_gz (prog : list op) (fin : option bytes) (enc : bytes) : hdrs :=
-  let h2 := hset K_CE V_GZIP (vary_step (hh1 prog fin)) in
+  let h2 := hset K_CE V_GZIP (vary_step (final_hdrs prog fin)) in
   if hmem K_CL h2 then (if has_flush prog then hdel K_CL h2 else hset K_CL (dec_len enc) h2) else h2.
+(* header block otherwise *)
+Definition hdr_plain (e : env) (prog : list op) (fin : option bytes) : hdrs :=
+  if compress e then vary_step (final_hdrs prog fin) else final_hdrs prog fin.
+
+Definition lnil {A} (l : list A) : bool := match l with [] => true | _ => false end.
+Lemma lnil_app : forall A (a b' : list A), lnil (a ++ b') = lnil a && lnil b'.
+Proof. intros A [|x a] b'; simpl; auto. Qed.
+
+Lemma status_before : forall p, has_flush p = false -> status_at p = fold_left status_op p 200.
+Proof. intros p H. unfold status_at. rewrite no_flush_before; auto. Qed.
 
 Section Run.
 Variable c : codec.
@@ -60,22 +77,26 @@ Proof. unfold g0, o0. destruct (gz_open c); reflexivity. Qed.
 
 (* phase A: nothing flushed yet *)
 Definition stA (h : hdrs) (bs : list bytes) : st c :=
-  mkSt h bs false (ae_gzip e) None [] None [] false.
+  mkSt h bs false (compress e && ae_gzip e) None [] None [] false.
 
-Lemma execA : forall p h bs, has_flush p = false ->
-  exists bs', exec e p (stA h bs) = stA (fold_left (fun h o => hdr_op o h) p h) bs'
-              /\ concat bs' = concat bs ++ writes p.
+Lemma execA : forall p h bs k wc, has_flush p = false ->
+  exists bs', exec e p (mkHs (stA h bs) k wc)
+              = mkHs (stA (fold_left (fun h o => hdr_op o h) p h) bs') (fold_left status_op p k) wc
+              /\ concat bs' = concat bs ++ writes p
+              /\ lnil bs' = lnil bs && negb (existsb is_write p).
 Proof.
-  induction p as [|o p IH]; intros h bs H.
-  - exists bs. simpl. rewrite app_nil_r. auto.
+  induction p as [|o p IH]; intros h bs k wc H.
+  - exists bs. simpl. rewrite app_nil_r, andb_true_r. auto.
   - destruct o; simpl in H; try discriminate;
       unfold exec in *; simpl fold_left.
-    + apply (IH _ bs H).
-    + apply (IH _ bs H).
-    + apply (IH _ bs H).
-    + destruct (IH h (bs ++ [chunk]) H) as [bs' [E1 E2]].
-      exists bs'. split. exact E1. rewrite E2. rewrite concat_snoc.
-      unfold writes. simpl. rewrite app_assoc. reflexivity.
+    + apply (IH _ bs _ _ H).
+    + apply (IH _ bs _ _ H).
+    + apply (IH _ bs _ _ H).
+    + destruct (IH h (bs ++ [chunk]) k wc H) as [bs' [E1 [E2 E3]]].
+      exists bs'. split. exact E1. split.
+      * rewrite E2. rewrite concat_snoc. unfold writes. simpl. rewrite app_assoc. reflexivity.
+      * rewrite E3. rewrite lnil_app. simpl. rewrite !andb_false_r. reflexivity.
+    + apply (IH h bs _ _ H).
 Qed.
 
 (* phase B: header block written with headers H, transform decided D *)
@@ -84,48 +105,74 @@ Definition gz_inv (D : bool) (flushed : bytes) (s : st c) : Prop :=
                              /\ concat (sent s) = o0 ++ o /\ gz_data hist = flushed
   else concat (sent s) = flushed.
 
-Record InvB (H : hdrs) (D : bool) (w : bytes) (s : st c) : Prop := {
-  ib_written : written s = true;
-  ib_err : err s = false;
-  ib_hdrs : w_hdrs s = Some H;
-  ib_gzf : gzipping s = D;
-  ib_data : exists flushed, w = flushed ++ concat (buf s) /\ gz_inv D flushed s
+Record InvB (H : hdrs) (D : bool) (W : N) (w : bytes) (hs0 : hs c) : Prop := {
+  ib_written : written (core hs0) = true;
+  ib_err : err (core hs0) = false;
+  ib_hdrs : w_hdrs (core hs0) = Some H;
+  ib_gzf : gzipping (core hs0) = D;
+  ib_code : wcode hs0 = W;
+  ib_comp : D = true -> compress e = true;
+  ib_data : exists flushed, w = flushed ++ concat (buf (core hs0)) /\ gz_inv D flushed (core hs0)
 }.
 
-Lemma stepB : forall H D w s o, InvB H D w s -> InvB H D (w ++ chunk_of o) (step e s o).
+Lemma flushB : forall H D W w s f, InvB H D W w s ->
+  let s' := do_flush e f s in
+  written (core s') = true /\ err (core s') = false /\ w_hdrs (core s') = Some H /\ wcode s' = W /\
+  buf (core s') = [] /\
+  if f then
+    (if D then exists hist g o, gz_run c g0 hist = (g, o) /\ concat (sent (core s')) = o0 ++ o ++ gz_close c g
+                                /\ gz_data hist = w
+     else concat (sent (core s')) = w)
+  else gzipping (core s') = D /\ gz_inv D w (core s').
 Proof.
-  intros H D w s o [I1 I2 I3 I4 [fl [I5 I6]]].
-  destruct s as [hd0 buf0 wr gzf gzo gv wh sn er]. simpl in *. subst wr er gzf.
-  destruct o; simpl.
-  - (* SetH *) rewrite app_nil_r. constructor; simpl; auto. exists fl. split; auto;
-    try (unfold gz_inv in *; destruct D; simpl in *; auto).
-  - rewrite app_nil_r. constructor; simpl; auto. exists fl. split; auto;
-    try (unfold gz_inv in *; destruct D; simpl in *; auto).
-  - rewrite app_nil_r. constructor; simpl; auto. exists fl. split; auto;
-    try (unfold gz_inv in *; destruct D; simpl in *; auto).
-  - (* Write *) constructor; simpl; auto. exists fl. split.
-    + rewrite concat_snoc. rewrite I5. rewrite app_assoc. reflexivity.
-    + unfold gz_inv in *. destruct D; simpl in *; auto.
-  - (* Flush *) rewrite app_nil_r. unfold flush. simpl. rewrite NH. unfold transform_chunk. simpl.
-    unfold gz_inv in I6. destruct D; simpl in *.
-    + destruct I6 as [hist [g [o [G1 [G2 [G3 [G4 G5]]]]]]]. subst gzo gv.
-      destruct (gz_write c g (concat buf0)) as [g1 o1] eqn:EW.
-      destruct (gz_flush c g1) as [g2 o2] eqn:EF.
-      constructor; simpl; auto.
-      exists (fl ++ concat buf0). split. rewrite app_nil_r. exact I5.
+  intros H D W w [s k wc] f [I1 I2 I3 I4 I7 I8 [fl [I5 I6]]]. simpl in *.
+  destruct s as [hd0 buf0 wr gzf gzo gv wh sn er]. simpl in *. subst wr er gzf wc.
+  unfold do_flush, flush. simpl. rewrite NH. unfold transform_chunk. simpl.
+  unfold gz_inv in I6. destruct D; simpl in *.
+  - destruct I6 as [hist [g [o [G1 [G2 [G3 [G4 G5]]]]]]]. subst gzo gv.
+    rewrite (I8 eq_refl). simpl.
+    destruct (gz_write c g (concat buf0)) as [g1 o1] eqn:EW. destruct f; simpl.
+    +
+      repeat split; auto.
+      exists (hist ++ [GW (concat buf0)]), g1, (o ++ o1). repeat split.
+      * rewrite gz_run_app. rewrite G3. simpl. rewrite EW. rewrite app_nil_r. reflexivity.
+      * rewrite concat_snoc. rewrite G4. simpl. rewrite <- !app_assoc. reflexivity.
+      * rewrite gz_data_app. rewrite G5. simpl. rewrite !app_nil_r. symmetry. exact I5.
+    + destruct (gz_flush c g1) as [g2 o2] eqn:EF. simpl. repeat split; auto.
       unfold gz_inv. simpl.
       exists (hist ++ [GW (concat buf0); GF]), g2, (o ++ o1 ++ o2). repeat split; auto.
       * rewrite gz_run_app. rewrite G3. simpl. rewrite EW. rewrite EF. rewrite app_nil_r. reflexivity.
       * rewrite concat_snoc. rewrite G4. simpl. rewrite <- !app_assoc. reflexivity.
-      * rewrite gz_data_app. rewrite G5. simpl. rewrite !app_nil_r. reflexivity.
-    + constructor; simpl; auto.
-      exists (fl ++ concat buf0). split. rewrite app_nil_r. exact I5.
-      unfold gz_inv. simpl. rewrite concat_snoc. rewrite I6. reflexivity.
+      * rewrite gz_data_app. rewrite G5. simpl. rewrite !app_nil_r. symmetry. exact I5.
+  - destruct (compress e); destruct f; simpl; repeat split; auto;
+      try (unfold gz_inv; simpl); rewrite concat_snoc; rewrite I6; symmetry; exact I5.
 Qed.
 
-Lemma execB : forall p H D w s, InvB H D w s -> InvB H D (w ++ writes p) (exec e p s).
+Lemma stepB : forall H D W w s o, InvB H D W w s -> InvB H D W (w ++ chunk_of o) (step e s o).
 Proof.
-  induction p as [|o p IH]; intros H D w s I.
+  intros H D W w s o I.
+  destruct o; simpl chunk_of; rewrite ?app_nil_r.
+  1,2,3,6: destruct I as [I1 I2 I3 I4 I7 I8 [fl [I5 I6]]]; destruct s as [s k wc];
+    destruct s as [hd0 buf0 wr gzf gzo gv wh sn er]; simpl in *;
+    constructor; simpl; auto; exists fl; split; auto;
+    unfold gz_inv in *; destruct D; simpl in *; auto.
+  - (* Write *)
+    destruct I as [I1 I2 I3 I4 I7 I8 [fl [I5 I6]]]. destruct s as [s k wc].
+    destruct s as [hd0 buf0 wr gzf gzo gv wh sn er]. simpl in *.
+    constructor; simpl; auto. exists fl. split.
+    + rewrite concat_snoc. rewrite I5. rewrite app_assoc. reflexivity.
+    + unfold gz_inv in *. destruct D; simpl in *; auto.
+  - (* Flush *)
+    pose proof (flushB H D W w s false I) as F. cbv zeta in F.
+    destruct F as [F1 [F2 [F3 [F4 [F5 [F6 F7]]]]]].
+    simpl step. constructor; auto.
+    + destruct I; auto.
+    + exists w. rewrite F5. simpl. rewrite app_nil_r. auto.
+Qed.
+
+Lemma execB : forall p H D W w s, InvB H D W w s -> InvB H D W (w ++ writes p) (exec e p s).
+Proof.
+  induction p as [|o p IH]; intros H D W w s I.
   - simpl. rewrite app_nil_r. exact I.
   - unfold exec in *. simpl fold_left.
     replace (w ++ writes (o :: p)) with ((w ++ chunk_of o) ++ writes p)
@@ -134,139 +181,172 @@ Proof.
 Qed.
 
 (* what the run looks like at the end *)
-Definition Final (Hd : bytes -> hdrs) (H0 : hdrs) (D : bool) (all : bytes) (s : st c) : Prop :=
-  err s = false /\
+Definition Final (Hd : bytes -> hdrs) (H0 : hdrs) (D : bool) (W : N) (all : bytes) (s : hs c) : Prop :=
+  err (core s) = false /\ wcode s = W /\
   if D then exists hist g o, gz_run c g0 hist = (g, o)
-                             /\ concat (sent s) = o0 ++ o ++ gz_close c g
+                             /\ concat (sent (core s)) = o0 ++ o ++ gz_close c g
                              /\ gz_data hist = all
-                             /\ w_hdrs s = Some (Hd (concat (sent s)))
-  else concat (sent s) = all /\ w_hdrs s = Some H0.
+                             /\ w_hdrs (core s) = Some (Hd (concat (sent (core s))))
+  else concat (sent (core s)) = all /\ w_hdrs (core s) = Some H0.
 
-Lemma finishB : forall H D w s fin, InvB H D w s ->
-  Final (fun _ => H) H D (w ++ fin_bytes fin) (finish e fin s).
+Lemma finishB : forall H D W w s fin, InvB H D W w s ->
+  exists s', finish e fin s = Some s' /\ Final (fun _ => H) H D W (w ++ fin_bytes fin) s'.
 Proof.
-  intros H D w s fin I.
-  assert (I' : InvB H D (w ++ fin_bytes fin) (match fin with Some d => push s d | None => s end)).
-  { destruct fin as [d|]; simpl.
-    - apply (stepB H D w s (Write d) I).
+  intros H D W w s fin I.
+  assert (I' : InvB H D W (w ++ fin_bytes fin) (match fin with Some d => step e s (Write d) | None => s end)).
+  { destruct fin as [d|]; simpl fin_bytes.
+    - apply (stepB H D W w s (Write d) I).
     - rewrite app_nil_r. exact I. }
-  unfold finish. remember (match fin with Some d => push s d | None => s end) as s1 eqn:Es1. clear Es1 I.
-  destruct I' as [I1 I2 I3 I4 [fl [I5 I6]]]. rewrite I1.
-  destruct s1 as [hd0 buf0 wr gzf gzo gv wh sn er]. simpl in *. subst wr er gzf.
-  unfold flush. simpl. rewrite NH. unfold transform_chunk. simpl.
-  unfold gz_inv in I6. unfold Final. destruct D; simpl in *.
-  - destruct I6 as [hist [g [o [G1 [G2 [G3 [G4 G5]]]]]]]. subst gzo gv.
-    destruct (gz_write c g (concat buf0)) as [g1 o1] eqn:EW. simpl.
-    split; auto.
-    exists (hist ++ [GW (concat buf0)]), g1, (o ++ o1). repeat split; auto.
-    + rewrite gz_run_app. rewrite G3. simpl. rewrite EW. rewrite app_nil_r. reflexivity.
-    + rewrite concat_snoc. rewrite G4. simpl. rewrite <- !app_assoc. reflexivity.
-    + rewrite gz_data_app. rewrite G5. simpl. rewrite !app_nil_r. symmetry. exact I5.
-  - split; auto. split; auto. rewrite concat_snoc. rewrite I6. symmetry. exact I5.
+  unfold finish. remember (match fin with Some d => step e s (Write d) | None => s end) as s1 eqn:Es1. clear Es1 I.
+  pose proof (flushB H D W _ s1 true I') as F. cbv zeta in F.
+  destruct I' as [I1 _ _ _ _ _ _]. rewrite I1.
+  eexists. split. reflexivity.
+  destruct F as [F1 [F2 [F3 [F4 [F5 F6]]]]].
+  unfold Final. split; auto. split; auto.
+  destruct D.
+  - destruct F6 as [hist [g [o [G1 [G2 G3]]]]]. exists hist, g, o. auto.
+  - auto.
 Qed.
 
 (* the first flush, from phase A *)
-Definition Dec (h : hdrs) (chunk : bytes) (f : bool) : bool :=
-  ae_gzip e && gzip_decision (vary_step h) chunk f.
+Definition Dec (h : hdrs) (k : N) (chunk : bytes) (f : bool) : bool :=
+  compress e && ae_gzip e && gzip_decision (vary_step h) k chunk f.
+Definition Hdr0 (h : hdrs) : hdrs := if compress e then vary_step h else h.
 Definition HdrB (h : hdrs) : hdrs :=
   let h2 := hset K_CE V_GZIP (vary_step h) in if hmem K_CL h2 then hdel K_CL h2 else h2.
 Definition HdrF (h : hdrs) (enc : bytes) : hdrs :=
   let h2 := hset K_CE V_GZIP (vary_step h) in if hmem K_CL h2 then hset K_CL (dec_len enc) h2 else h2.
 
-Lemma firstB : forall h bs,
-  InvB (if Dec h (concat bs) false then HdrB h else vary_step h) (Dec h (concat bs) false)
-       (concat bs) (flush e false (stA h bs)).
+Lemma Dec_comp : forall h k ch f, Dec h k ch f = true -> compress e = true.
+Proof. intros h k ch f H. unfold Dec in H. destruct (compress e); auto. Qed.
+
+Lemma firstB : forall h bs k wc,
+  InvB (if Dec h k (concat bs) false then HdrB h else Hdr0 h) (Dec h k (concat bs) false) k
+       (concat bs) (do_flush e false (mkHs (stA h bs) k wc)).
 Proof.
-  intros h bs. unfold flush, stA. simpl. rewrite NH. unfold transform_first_chunk. simpl.
-  fold (Dec h (concat bs) false).
-  change (if ae_gzip e then gzip_decision (vary_step h) (concat bs) false else false)
-    with (Dec h (concat bs) false).
-  destruct (Dec h (concat bs) false) eqn:ED.
-  - rewrite open_eq. unfold transform_chunk. simpl.
-    destruct (gz_write c g0 (concat bs)) as [g1 o1] eqn:EW.
-    destruct (gz_flush c g1) as [g2 o2] eqn:EF. simpl.
-    constructor; simpl; auto.
+  intros h bs k wc. unfold do_flush, flush, stA, Dec, Hdr0. simpl. rewrite NH.
+  destruct (compress e) eqn:CP; simpl.
+  - unfold transform_first_chunk. simpl.
+    destruct (if ae_gzip e then gzip_decision (vary_step h) k (concat bs) false else false) eqn:ED;
+      [replace (ae_gzip e && gzip_decision (vary_step h) k (concat bs) false) with true
+         by (destruct (ae_gzip e); auto)
+      |replace (ae_gzip e && gzip_decision (vary_step h) k (concat bs) false) with false
+         by (destruct (ae_gzip e); auto)].
+    + rewrite open_eq. unfold transform_chunk. simpl.
+      destruct (gz_write c g0 (concat bs)) as [g1 o1] eqn:EW.
+      destruct (gz_flush c g1) as [g2 o2] eqn:EF. simpl.
+      constructor; simpl; auto.
+      exists (concat bs). split. rewrite app_nil_r. reflexivity.
+      unfold gz_inv. exists [GW (concat bs); GF], g2, (o1 ++ o2). repeat split; auto.
+      * simpl. rewrite EW, EF. rewrite app_nil_r. reflexivity.
+      * simpl. rewrite app_nil_r. reflexivity.
+      * simpl. rewrite !app_nil_r. reflexivity.
+    + constructor; simpl; auto; try discriminate.
+      exists (concat bs). split. rewrite app_nil_r. reflexivity.
+      unfold gz_inv. simpl. rewrite app_nil_r. reflexivity.
+  - constructor; simpl; auto; try discriminate.
     exists (concat bs). split. rewrite app_nil_r. reflexivity.
-    unfold gz_inv. exists [GW (concat bs); GF], g2, (o1 ++ o2). repeat split; auto.
-    + simpl. rewrite EW, EF. rewrite app_nil_r. reflexivity.
-    + rewrite app_nil_r. reflexivity.
-    + simpl. rewrite !app_nil_r. reflexivity.
-  - constructor; simpl; auto.
-    exists (concat bs). split. rewrite app_nil_r. reflexivity.
-    unfold gz_inv. rewrite app_nil_r. reflexivity.
+    unfold gz_inv. simpl. rewrite app_nil_r. reflexivity.
 Qed.
 
-Lemma firstF : forall h bs,
-  Final (HdrF h) (vary_step h) (Dec h (concat bs) true) (concat bs) (flush e true (stA h bs)).
+Lemma firstF : forall h bs k wc,
+  Final (HdrF h) (Hdr0 h) (Dec h k (concat bs) true) k (concat bs) (do_flush e true (mkHs (stA h bs) k wc)).
 Proof.
-  intros h bs. unfold flush, stA. simpl. rewrite NH. unfold transform_first_chunk. simpl.
-  change (if ae_gzip e then gzip_decision (vary_step h) (concat bs) true else false)
-    with (Dec h (concat bs) true).
-  unfold Final.
-  destruct (Dec h (concat bs) true) eqn:ED.
-  - rewrite open_eq. unfold transform_chunk. simpl.
-    destruct (gz_write c g0 (concat bs)) as [g1 o1] eqn:EW. simpl.
-    split; auto.
-    exists [GW (concat bs)], g1, o1. repeat split; auto.
-    + simpl. rewrite EW. rewrite app_nil_r. reflexivity.
-    + rewrite app_nil_r. reflexivity.
-    + simpl. rewrite app_nil_r. reflexivity.
-    + rewrite app_nil_r. unfold HdrF. reflexivity.
-  - simpl. split; auto. split; auto. rewrite app_nil_r. reflexivity.
+  intros h bs k wc. unfold do_flush, flush, stA, Dec, Hdr0, Final. simpl. rewrite NH.
+  destruct (compress e) eqn:CP; simpl.
+  - unfold transform_first_chunk. simpl.
+    destruct (if ae_gzip e then gzip_decision (vary_step h) k (concat bs) true else false) eqn:ED;
+      [replace (ae_gzip e && gzip_decision (vary_step h) k (concat bs) true) with true
+         by (destruct (ae_gzip e); auto)
+      |replace (ae_gzip e && gzip_decision (vary_step h) k (concat bs) true) with false
+         by (destruct (ae_gzip e); auto)].
+    + rewrite open_eq. unfold transform_chunk. simpl.
+      destruct (gz_write c g0 (concat bs)) as [g1 o1] eqn:EW. simpl.
+      split; auto. split; auto.
+      exists [GW (concat bs)], g1, o1. repeat split; auto.
+      * simpl. rewrite EW. rewrite app_nil_r. reflexivity.
+      * rewrite app_nil_r. reflexivity.
+      * simpl. rewrite app_nil_r. reflexivity.
+      * rewrite app_nil_r. unfold HdrF. reflexivity.
+    + simpl. split; auto. split; auto. split; auto. rewrite app_nil_r. reflexivity.
+  - split; auto. split; auto. split; auto. rewrite app_nil_r. reflexivity.
 Qed.
 
 (* ---------- every run, in closed form ---------- *)
 Theorem run_spec : forall prog fin,
-  Final (hdr_gz prog fin) (vary_step (hh1 prog fin)) (decision e prog fin)
-        (writes prog ++ fin_bytes fin) (run c e prog fin).
+  if assertion_fails prog fin then run c e prog fin = None
+  else exists s, run c e prog fin = Some s /\
+       Final (hdr_gz prog fin) (hdr_plain e prog fin) (decision e prog fin) (status_at prog)
+             (writes prog ++ fin_bytes fin) s.
 Proof.
-  intros prog fin. unfold run. change (init c e) with (stA init_hd []).
+  intros prog fin. unfold run, assertion_fails.
+  change (init c e) with (stA init_hd []).
   destruct (has_flush prog) eqn:HF.
   - (* flushed at least once *)
-    assert (EX : exec e prog (stA init_hd []) =
-                 exec e (after_flush prog) (step e (exec e (before_flush prog) (stA init_hd [])) Flush)).
+    simpl negb. simpl andb.
+    assert (EX : exec e prog (mkHs (stA init_hd []) 200 200) =
+                 exec e (after_flush prog) (step e (exec e (before_flush prog) (mkHs (stA init_hd []) 200 200)) Flush)).
     { rewrite (split_flush prog HF) at 1. unfold exec. rewrite fold_left_app. reflexivity. }
     rewrite EX. clear EX.
-    destruct (execA (before_flush prog) init_hd [] (before_no_flush prog)) as [bs [E1 E2]].
+    destruct (execA (before_flush prog) init_hd [] 200 200 (before_no_flush prog)) as [bs [E1 [E2 _]]].
     rewrite E1. simpl in E2.
-    fold (handler_hdrs prog).
-    pose proof (firstB (handler_hdrs prog) bs) as IB.
-    change (step e (stA (handler_hdrs prog) bs) Flush) with (flush e false (stA (handler_hdrs prog) bs)).
-    eapply execB in IB. eapply finishB in IB. unfold exec in IB.
+    fold (handler_hdrs prog). fold (status_at prog).
+    pose proof (firstB (handler_hdrs prog) bs (status_at prog) 200) as IB.
+    simpl step.
+    eapply execB in IB. eapply finishB in IB. destruct IB as [s' [ES IB]].
+    exists s'. split. exact ES.
     rewrite E2 in IB. rewrite <- app_assoc in IB. rewrite (app_assoc (writes (before_flush prog))) in IB.
     rewrite <- writes_split in IB by exact HF.
-    unfold decision, hdr_gz, hh1, first_chunk. rewrite HF. simpl negb.
-    unfold Dec in IB. unfold Final in *.
-    destruct IB as [IB1 IB2]. split. exact IB1.
-    destruct (ae_gzip e && gzip_decision (vary_step (handler_hdrs prog)) (writes (before_flush prog)) false) eqn:ED.
+    unfold decision, hdr_gz, hdr_plain, final_hdrs, eff_hdrs, first_chunk. rewrite HF. simpl negb. simpl orb.
+    unfold Dec, Hdr0 in IB. unfold Final in *.
+    destruct IB as [IB1 [IB0 IB2]]. split. exact IB1. split. exact IB0.
+    destruct (compress e && ae_gzip e &&
+              gzip_decision (vary_step (handler_hdrs prog)) (status_at prog) (writes (before_flush prog)) false) eqn:ED.
     + destruct IB2 as [hist [g [o [G1 [G2 [G3 G4]]]]]].
       exists hist, g, o. repeat split; auto.
     + exact IB2.
   - (* single chunk *)
-    assert (EX : exec e prog (stA init_hd []) = exec e (before_flush prog) (stA init_hd []))
+    simpl negb. rewrite andb_true_l.
+    assert (EX : exec e prog (mkHs (stA init_hd []) 200 200) = exec e (before_flush prog) (mkHs (stA init_hd []) 200 200))
       by (rewrite (no_flush_before prog HF); reflexivity).
     rewrite EX. clear EX.
-    destruct (execA (before_flush prog) init_hd [] (before_no_flush prog)) as [bs [E1 E2]].
-    rewrite E1. simpl in E2. fold (handler_hdrs prog).
-    rewrite (no_flush_before prog HF) in E2.
+    destruct (execA (before_flush prog) init_hd [] 200 200 (before_no_flush prog)) as [bs [E1 [E2 E3]]].
+    rewrite E1. simpl in E2. simpl in E3. fold (handler_hdrs prog). fold (status_at prog).
+    rewrite (no_flush_before prog HF) in E2, E3.
     unfold finish.
     set (bs1 := match fin with Some d => bs ++ [d] | None => bs end).
     assert (EB : concat bs1 = writes prog ++ fin_bytes fin).
     { unfold bs1. destruct fin as [d|]; simpl.
       - rewrite concat_snoc. rewrite E2. reflexivity.
       - rewrite app_nil_r. exact E2. }
-    replace (match fin with Some d => push (stA (handler_hdrs prog) bs) d | None => stA (handler_hdrs prog) bs end)
-      with (stA (handler_hdrs prog) bs1) by (unfold bs1; destruct fin; reflexivity).
-    simpl written. cbv iota. simpl hd. simpl buf.
-    replace (if hmem K_CL (handler_hdrs prog) then stA (handler_hdrs prog) bs1
-             else set_hd (stA (handler_hdrs prog) bs1) (hset K_CL (dec_len (concat bs1)) (handler_hdrs prog)))
-      with (stA (hh1 prog fin) bs1).
-    2:{ unfold hh1, first_chunk. rewrite HF. rewrite EB.
-        destruct (hmem K_CL (handler_hdrs prog)); reflexivity. }
-    pose proof (firstF (hh1 prog fin) bs1) as IF.
-    rewrite EB in IF.
-    unfold decision, hdr_gz, first_chunk. rewrite HF. simpl negb.
-    unfold Dec, HdrF in IF. exact IF.
+    assert (EN : lnil bs1 = negb (wrote prog fin)).
+    { unfold bs1, wrote. destruct fin as [d|].
+      - rewrite lnil_app. simpl. rewrite andb_false_r, orb_true_r. reflexivity.
+      - rewrite E3. rewrite orb_false_r. reflexivity. }
+    replace (match fin with
+             | Some d => step e (mkHs (stA (handler_hdrs prog) bs) (status_at prog) 200) (Write d)
+             | None => mkHs (stA (handler_hdrs prog) bs) (status_at prog) 200 end)
+      with (mkHs (stA (handler_hdrs prog) bs1) (status_at prog) 200) by (unfold bs1; destruct fin; reflexivity).
+    simpl core. simpl written. cbv iota. simpl code. simpl wcode. simpl hd. simpl buf.
+    unfold decision, hdr_gz, hdr_plain, final_hdrs, eff_hdrs, first_chunk. rewrite HF. simpl negb. rewrite orb_false_l.
+    destruct (bodiless (status_at prog)) eqn:EBL.
+    + (* 204 / 304 / 1xx *)
+      rewrite andb_true_l.
+      destruct bs1 as [|x bs2] eqn:EBS; simpl in EN.
+      * rewrite <- (negb_involutive (wrote prog fin)). rewrite <- EN. simpl negb. cbv iota.
+        eexists. split. reflexivity.
+        pose proof (firstF (clear_repr (handler_hdrs prog)) [] (status_at prog) 200) as IF.
+        simpl concat in IF. simpl concat in EB. rewrite <- EB.
+        unfold Dec, HdrF, Hdr0 in IF. exact IF.
+      * rewrite <- (negb_involutive (wrote prog fin)). rewrite <- EN. reflexivity.
+    + rewrite andb_false_l.
+      destruct (hmem K_CL (handler_hdrs prog)) eqn:ECL.
+      * eexists. split. reflexivity.
+        pose proof (firstF (handler_hdrs prog) bs1 (status_at prog) 200) as IF.
+        rewrite EB in IF. unfold Dec, HdrF, Hdr0 in IF. exact IF.
+      * eexists. split. reflexivity. rewrite EB.
+        pose proof (firstF (hset K_CL (dec_len (writes prog ++ fin_bytes fin)) (handler_hdrs prog)) bs1 (status_at prog) 200) as IF.
+        rewrite EB in IF. unfold Dec, HdrF, Hdr0 in IF. exact IF.
 Qed.
 
 End Run.
